@@ -2,7 +2,7 @@
 //! that does most of the work for [`crate::input::Context::transform`].
 
 use super::CssData;
-use super::cssdest::CssDestination;
+use super::cssdest::{CssDestination, is_keyframes};
 use crate::css::{self, AtRule, Import, SelectorCtx};
 use crate::error::ResultPos;
 use crate::input::{Context, Loader, Parsed, SourceKind};
@@ -254,7 +254,7 @@ fn handle_item(
             let args = args.evaluate(scope.clone())?;
             if let Some(body) = body {
                 let mut atrule = dest.start_atrule(name.clone(), args);
-                let local = if name == "keyframes" {
+                let local = if is_keyframes(&name) {
                     ScopeRef::sub_selectors(scope, SelectorCtx::root())
                 } else {
                     ScopeRef::sub(scope)
